@@ -67,13 +67,13 @@ func runC24(c *Ctx) {
 	// scanForMarker keeps the marker with the highest iteration
 	if fn := c.Fn("C24.T1", "afs.scanForMarker"); fn != nil {
 		fl := NewFlow(c.P).
-			Edge("newer", CmpGuard(token.LSS, "state.iter", "iter")).
+			Edge("newer", FieldCmpGuard(token.LSS, "iter")).
 			Edge("newer", func(v ssa.Value) (bool, bool) {
 				bo, ok := v.(*ssa.BinOp)
 				if !ok || (bo.Op != token.EQL && bo.Op != token.NEQ) {
 					return false, false
 				}
-				if pathHasSuffix(pathOf(bo.X), "state.filename") {
+				if fieldNamed(bo.X, "filename") {
 					if k, ok := bo.Y.(*ssa.Const); ok && k.Value != nil && k.Value.String() == `""` {
 						return true, bo.Op == token.NEQ
 					}
@@ -81,7 +81,7 @@ func runC24(c *Ctx) {
 				return false, false
 			})
 		res := fl.Analyze(fn, emptyState())
-		n := c.Require("C24.T1", res, StorePath("state.filename"), "current marker replaced only by a higher iteration", []string{"newer"})
+		n := c.Require("C24.T1", res, StorePath("filename"), "current marker replaced only by a higher iteration", []string{"newer"})
 		if n == 0 {
 			c.Unresolved("C24.T1", "store to state.filename not found in scanForMarker")
 		}
